@@ -14,6 +14,10 @@ class SimFile(object):
     read(n), read(), readline, iteration, write, close, context manager, name.
     """
 
+    def __reduce_ex__(self, protocol):
+        # like a real file object: cannot be sent to another process
+        raise TypeError("cannot pickle 'SimFile' instances")
+
     def __init__(self, fs, path, text, mode="r", short_reads=None, stats=None):
         self.fs = fs
         self.name = path
